@@ -21,6 +21,7 @@ import (
 //	v := E; return v -> return E   when v is used nowhere else
 //	c := E; if c {   -> if E {      when c is used nowhere else and E is free of calls
 //	a, b := x, y     -> a := x; b := y   (new variables, call-free operands)
+//	for i := 0; i < len(xs); i++ {   ->  for i := range xs {   (xs a local slice the body leaves alone)
 //	for i := range xs { v := xs[i]; ...  ->  for i, v := range xs { ...
 //	var x = E        -> x := E        (one name, one value, no declared type)
 //
@@ -203,6 +204,101 @@ func normalize(pk *packages.Package) {
 			}
 			return true
 		})
+		// for i := 0; i < len(xs); i++ { ... }  ->  for i := range xs { ... }
+		// (xs a local slice or array variable that the body neither assigns nor takes the address of,
+		// i not assigned in the body, no function literal in the body: the bound is then the same on
+		// every iteration and both loops visit 0..len(xs)-1 in order)
+		astutil.Apply(f, func(c *astutil.Cursor) bool {
+			fs, ok := c.Node().(*ast.ForStmt)
+			if !ok || fs.Init == nil || fs.Cond == nil || fs.Post == nil {
+				return true
+			}
+			init, ok := fs.Init.(*ast.AssignStmt)
+			if !ok || init.Tok != token.DEFINE || len(init.Lhs) != 1 || len(init.Rhs) != 1 {
+				return true
+			}
+			iv, ok := init.Lhs[0].(*ast.Ident)
+			if tv, has := info.Types[init.Rhs[0]]; !ok || !has || tv.Value == nil || tv.Value.ExactString() != "0" || info.Defs[iv] == nil {
+				return true
+			}
+			iobj := info.Defs[iv]
+			if b, isB := iobj.Type().Underlying().(*types.Basic); !isB || b.Kind() != types.Int {
+				return true
+			}
+			cond, ok := fs.Cond.(*ast.BinaryExpr)
+			if !ok || cond.Op != token.LSS {
+				return true
+			}
+			ci, ok := cond.X.(*ast.Ident)
+			if !ok || info.Uses[ci] != iobj {
+				return true
+			}
+			lc, ok := cond.Y.(*ast.CallExpr)
+			if !ok || len(lc.Args) != 1 {
+				return true
+			}
+			if id, isID := lc.Fun.(*ast.Ident); !isID || id.Name != "len" {
+				return true
+			} else if _, isB := info.Uses[id].(*types.Builtin); !isB {
+				return true
+			}
+			xs, ok := lc.Args[0].(*ast.Ident)
+			if !ok {
+				return true
+			}
+			xobj, ok := info.Uses[xs].(*types.Var)
+			if !ok || xobj.IsField() || (xobj.Pkg() != nil && xobj.Parent() == xobj.Pkg().Scope()) {
+				return true
+			}
+			switch xobj.Type().Underlying().(type) {
+			case *types.Slice, *types.Array:
+			default:
+				return true
+			}
+			switch post := fs.Post.(type) {
+			case *ast.IncDecStmt:
+				if id, isID := post.X.(*ast.Ident); !isID || post.Tok != token.INC || info.Uses[id] != iobj {
+					return true
+				}
+			default:
+				return true
+			}
+			clean := true
+			ast.Inspect(fs.Body, func(m ast.Node) bool {
+				touched := func(e ast.Expr) bool {
+					id, ok := ast.Unparen(e).(*ast.Ident)
+					return ok && (info.Uses[id] == iobj || info.Uses[id] == types.Object(xobj))
+				}
+				switch y := m.(type) {
+				case *ast.AssignStmt:
+					for _, l := range y.Lhs {
+						if touched(l) {
+							clean = false
+						}
+					}
+				case *ast.IncDecStmt:
+					if touched(y.X) {
+						clean = false
+					}
+				case *ast.UnaryExpr:
+					if y.Op == token.AND && touched(y.X) {
+						clean = false
+					}
+				case *ast.RangeStmt:
+					if (y.Key != nil && touched(y.Key)) || (y.Value != nil && touched(y.Value)) {
+						clean = false
+					}
+				case *ast.FuncLit:
+					clean = false
+				}
+				return clean
+			})
+			if !clean {
+				return true
+			}
+			c.Replace(&ast.RangeStmt{For: fs.For, Key: iv, TokPos: init.TokPos, Tok: token.DEFINE, Range: init.TokPos, X: xs, Body: fs.Body})
+			return true
+		}, nil)
 		// for i := range xs { v := xs[i]; ... }  ->  for i, v := range xs { ... }
 		ast.Inspect(f, func(n ast.Node) bool {
 			rs, ok := n.(*ast.RangeStmt)
